@@ -236,7 +236,10 @@ class OnlineVariance(object):
         if self.count < 2:
             return np.nan
         else:
-            return self.M2/self.wcount
+            # M2 is a sum of non-negative terms; round-off can leave it
+            # marginally below zero (e.g. zero-weight samples followed by a
+            # dominant one), which would turn the standard deviation into NaN
+            return np.maximum(self.M2, 0.0)/self.wcount
     
     @property
     def sampleVariance(self):
